@@ -39,3 +39,18 @@ add("C17", "model_checking",
     "The real ChattyStrategy functions broadcastViewDiff/broadcastUpdatesOnly/broadcastAll/broadcastPrecommits and the real kernel goroutine (two consecutive updates) run against a recording broadcaster on pairs of consecutive views built from real signature proofs (same or different height/round as full-width symbols, growing signer words per target, growing header sets, nil-voted round); per update everything new in the view must be contained in what was sent and everything sent must be in the view.",
     "Bounds: 2 validators (quick) / 3 (thorough), targets nil/A/B, 2 consecutive updates. Assumes the previous view was completely broadcast (per-step obligation) and views of one round only grow. Update sequences longer than 2 and cancelled contexts are outside.",
     "symbolic execution of go/ssa + SMT; view structure enumerated, positions symbolic", "§5 C17")
+
+add("C14", "model_checking",
+    "The real tmjson conversion code (To*/toJSON* for headers, proposed/committed headers, validators, commit proofs, sparse proofs, the consensus-message dispatch) and gcrypto.Registry Marshal/Unmarshal/Decode run on arbitrary intermediate values (slice lengths 0-2, byte strings 0-3 symbolic bytes or nil; public-key encodings of 0-10 arbitrary bytes) for totality, and on symbolic well-formed values for field-by-field round trip and variant preservation. encoding/json itself is replaced by its contract (Marshal->Unmarshal of the intermediate structs is the identity; Unmarshal of arbitrary text yields an arbitrary intermediate value or an error); native replay of sampled paths runs the real encoding/json.",
+    "Bounds in evidence. Outside: encoding/json and JSON text themselves, sizes above the bounds, nil-vs-empty proof maps (not distinguished, as in the repo's compliance tests).",
+    "symbolic execution of go/ssa + SMT; encoding/json replaced by its contract", "§5 C14")
+
+add("C19", "model_checking",
+    "The real generic workingState[S,T] (S=uint64, T={ID}) runs one operation (CheckAddTx, Buffered, Rebase) from an arbitrary pre-state satisfying the pending-list invariant (0-2 quick / 0-3 thorough pending transactions), with the application's AddTx semantics left uninterpreted (valid/apply/fatal are uninterpreted functions), so the inductive step holds for every transaction semantics; plus the real Buffer API (kernel goroutine) driven sequentially against a reference model and with two concurrent clients under all schedules at channel operations.",
+    "Assumes pairwise distinct transaction IDs (the deleter contract does not define duplicates; a duplicate-ID counterexample exists and is documented in DESIGN.md as outside the property). Plain memory races are invisible to the cooperative scheduler.",
+    "symbolic execution of go/ssa + SMT with uninterpreted transaction semantics; inductive step", "§5 C19")
+
+add("C20", "model_checking",
+    "exchangeFeedbackToLibp2p runs over all 256 feedback values (Accept iff FeedbackAccepted, everything else including out-of-range is not Accept) and the real topic-validator closure of the libp2p Connection runs with stub codec/handler whose outcomes are symbolic: Accept for a message from another peer implies decode succeeded, a handler is installed and its verdict was accepted.",
+    "Only the mapping and the validator closure are claimed. The handler-replacement window of (*Connection).background (third-party pubsub behaviour) and the in-memory daisy-chain network are NOT decided (see DESIGN.md §6); libp2p gossipsub itself is outside.",
+    "symbolic execution of go/ssa + SMT", "§5 C20")
